@@ -57,8 +57,11 @@ def unit():
         if not eng.prefix:
             eng.cover('VMSA state satisfiable')
 
+        spec_reads = []
+
         def hook(model):
-            return {'__reads__': [[sym.evaluate(pa, model), sym.evaluate(v, model)] for (k, pa, sz, v) in log if k == 'hubR']}
+            return {'__reads__': [[sym.evaluate(pa, model), sym.evaluate(v, model)] for (k, pa, sz, v) in log if k == 'hubR'] +
+                                 [[sym.evaluate(pa, model), sym.evaluate(v, model)] for (pa, v) in spec_reads]}
         eng.model_hook = hook
         contracts = {}
         contracts.update(registry.l1())
@@ -72,7 +75,10 @@ def unit():
         except PyRaise as e:
             exc = e.exc
         final = mach.read()
-        rd = lambda pa: c13.hub_read(hub.init, pa, 4)
+        def rd(pa):
+            v = c13.hub_read(hub.init, pa, 4)
+            spec_reads.append((pa, v))            # the specification's own descriptor fetches (for faithful replays)
+            return v
         sp = VM.translate_v(init, va, ispriv, iswrite, wasaligned, rd)
         dc = lor(sp['unpred'], sp['impdef'])
         if exc is not None and issubclass(exc.cls, NotImplementedError):
@@ -204,8 +210,11 @@ def unit_ld():
         if not eng.prefix:
             eng.cover('VMSA/LPAE state satisfiable')
 
+        spec_reads = []
+
         def hook(model):
-            return {'__reads__': [[sym.evaluate(pa, model), sym.evaluate(v, model)] for (k, pa, sz, v) in log if k == 'hubR']}
+            return {'__reads__': [[sym.evaluate(pa, model), sym.evaluate(v, model)] for (k, pa, sz, v) in log if k == 'hubR'] +
+                                 [[sym.evaluate(pa, model), sym.evaluate(v, model)] for (pa, v) in spec_reads]}
         eng.model_hook = hook
         contracts = {}
         contracts.update(registry.l1())
@@ -227,7 +236,10 @@ def unit_ld():
             eng.oblige('term', 'the table walk finishes within three levels (lookup loop terminates)', False, detail=str(e))
             return
         final = mach.read()
-        rd8 = lambda pa: c13.hub_read(hub.init, pa, 8)
+        def rd8(pa):
+            v = c13.hub_read(hub.init, pa, 8)
+            spec_reads.append((pa, v))
+            return v
         sp = VM.translate_v_ld(init, va, ispriv, iswrite, wasaligned, rd8)
         dc = sp['unpred']
         if exc is not None and issubclass(exc.cls, NotImplementedError):
